@@ -15,7 +15,8 @@ pub struct C09;
 #[derive(Clone, Debug, PartialEq, Eq, Hash, Serialize, Deserialize)]
 pub struct Case09 {
     pub ce: ClassExpr,
-    /// 0 = none, 1 = raw hyphen first in the group, 2 = raw hyphen last (only without subtraction)
+    /// 0 = none, 1 = raw hyphen first in the group, 2 = raw hyphen last (without subtraction),
+    /// 3 = raw hyphen directly before the subtraction ([ab--[b]])
     pub hyphen_edge: u8,
     pub chunks: Vec<u16>,
     pub all_chunks: bool,
@@ -56,13 +57,29 @@ fn render_case(case: &Case09) -> String {
             let at = s.len() - 1;
             s.insert(at, '-');
         }
+        3 if case.ce.sub.is_some() => {
+            // render again with the hyphen in front of "-[": items, then '-', then the subtraction
+            let mut t = String::from("[");
+            if case.ce.neg {
+                t.push('^');
+            }
+            let head = ClassExpr { neg: false, items: case.ce.items.clone(), sub: None };
+            let mut h = String::new();
+            head.render(&mut h);
+            t.push_str(&h[1..h.len() - 1]);
+            t.push('-');
+            t.push('-');
+            case.ce.sub.as_ref().unwrap().render(&mut t);
+            t.push(']');
+            return t;
+        }
         _ => {}
     }
     s
 }
 
 fn member(case: &Case09, c: char) -> bool {
-    let hy = matches!(case.hyphen_edge, 1) || (case.hyphen_edge == 2 && case.ce.sub.is_none());
+    let hy = matches!(case.hyphen_edge, 1) || (case.hyphen_edge == 2 && case.ce.sub.is_none()) || (case.hyphen_edge == 3 && case.ce.sub.is_some());
     if hy {
         // the hyphen joins the positive part of the top-level group
         let mut ce = case.ce.clone();
@@ -118,6 +135,9 @@ pub fn check_class(case: &Case09, ctx: &mut Ctx) -> Verdict {
     }
     if case.hyphen_edge != 0 {
         ctx.obs.label("raw-hyphen-at-edge");
+    }
+    if case.hyphen_edge == 3 && case.ce.sub.is_some() {
+        ctx.obs.label("raw-hyphen-before-subtraction");
     }
     let mut boundary: Vec<char> = vec![];
     let (mut members, mut non_members) = (0u64, 0u64);
@@ -213,8 +233,8 @@ impl Prop for C09 {
         "C09"
     }
     fn parts(&self, tier: Tier) -> Vec<Part<Case09>> {
-        let s = (gen::class_strategy(&class_cfg()), 0u8..6, prop::collection::vec(any::<u16>(), 2..=2))
-            .prop_map(|(ce, h, chunks)| Case09 { ce, hyphen_edge: if h < 3 { h } else { 0 }, chunks, all_chunks: false })
+        let s = (gen::class_strategy(&class_cfg()), 0u8..7, prop::collection::vec(any::<u16>(), 2..=2))
+            .prop_map(|(ce, h, chunks)| Case09 { ce, hyphen_edge: if h < 4 { h } else { 0 }, chunks, all_chunks: false })
             .boxed();
         let mut parts = vec![Part { name: "classes-sampled-chunks".into(), strategy: s, cases: tier.pick(6_000, 100_000) }];
         let s2 = (gen::class_strategy(&class_cfg()), 0u8..6).prop_map(|(ce, h)| Case09 { ce, hyphen_edge: if h < 3 { h } else { 0 }, chunks: vec![], all_chunks: true }).boxed();
@@ -237,6 +257,7 @@ impl Prop for C09 {
             Guard { label: "nested-subtraction".into(), of: "".into(), min_fraction: 0.03 },
             Guard { label: "members-and-non-members".into(), of: "".into(), min_fraction: 0.5 },
             Guard { label: "one-char-class-vs-literal".into(), of: "".into(), min_fraction: 0.01 },
+            Guard { label: "raw-hyphen-before-subtraction".into(), of: "".into(), min_fraction: 0.01 },
         ]
     }
 }
